@@ -1,12 +1,15 @@
 package props
 
 import (
+	"bytes"
+	"encoding/binary"
 	"encoding/json"
 	"fmt"
 	"io"
 	"strconv"
 	"strings"
 
+	"github.com/tormoder/fit"
 	"github.com/tormoder/fit/dyncrc16"
 
 	"verif/fitmodel"
@@ -31,7 +34,7 @@ func init() {
 		ID:    "C14",
 		Level: "model_checking",
 		Rule: "explicit-state: all 65536 register states (each reached on the implementation through New().Write of its unique 2-byte prefix) x all 256 next bytes, compared with a bitwise CRC-16/ARC; " +
-			"Reset and residue from every state; all byte strings of length<=3 (quick: <=2 plus stride on 3) under every write partition; long strings under every 1- and 2-cut partition; single Write / Checksum calls of sizes 2^k-1, 2^k, 2^k+1 for k=5..20; alignment: every start offset 0..16 inside a larger buffer x 30 lengths up to 8192 through Checksum, one Write and a two-part Write; first use: Checksum / Write / byte-wise Write / Sum on 10 lengths as the first call a fresh process makes into the package, and ordered pairs of such calls (quick: lengths 255..4096; thorough: all), one process per history. " +
+			"Reset and residue from every state; all byte strings of length<=3 (quick: <=2 plus stride on 3) under every write partition; long strings under every 1- and 2-cut partition; single Write / Checksum calls of sizes 2^k-1, 2^k, 2^k+1 for k=5..20; alignment: every start offset 0..16 inside a larger buffer x 30 lengths up to 8192 through Checksum, one Write and a two-part Write; first use: Checksum / Write / byte-wise Write / Sum on 10 lengths as the first call a fresh process makes into the package, and ordered pairs of such calls (quick: lengths 255..4096; thorough: all), one process per history; histories that first go through package fit (Header.CheckIntegrity with a wrong / right CRC, CheckIntegrity and Decode of corrupt and valid files, Encode) and then use the checksum package. " +
 			"distinct = distinct (state,byte)->state' transitions observed on the implementation",
 		Assumptions: []string{"reference is the textbook bitwise reflected CRC-16 (poly 0xA001, init 0, no final xor)"},
 		Run:         runC14,
@@ -49,6 +52,9 @@ func init() {
 				for i := 0; i+1 < len(fu.FirstUse); i += 2 {
 					n, _ := strconv.Atoi(fu.FirstUse[i+1])
 					want := fmt.Sprintf("%04x", fitmodel.CRC(c14Pattern(n)))
+					if isFitCall(fu.FirstUse[i]) {
+						want = "-"
+					}
 					if i/2 >= len(lines) || lines[i/2] != want {
 						return "", fmt.Errorf("fresh process %v: got %v, reference for call %d is %s", fu.FirstUse, lines, i/2+1, want)
 					}
@@ -385,6 +391,11 @@ func c14Sub(args []string) {
 				h.Write(data[j : j+1])
 			}
 			sum = h.Sum16()
+		case "HeaderCheckBad", "HeaderCheckGood", "CheckIntegrityCorrupt", "DecodeGood", "DecodeCorrupt", "EncodeSmall":
+			// calls into package fit that use the checksum internally (and may leave hashers behind)
+			c14FitCall(args[i])
+			fmt.Println("-")
+			continue
 		case "Sum":
 			h := dyncrc16.New()
 			h.Write(data)
@@ -432,6 +443,50 @@ func c14Alignment(w *vx.W) {
 	}
 }
 
+var c14FitCalls = []string{"HeaderCheckBad", "HeaderCheckGood", "CheckIntegrityCorrupt", "DecodeGood", "DecodeCorrupt", "EncodeSmall"}
+
+func isFitCall(n string) bool {
+	for _, f := range c14FitCalls {
+		if f == n {
+			return true
+		}
+	}
+	return false
+}
+
+func c14FitCall(name string) {
+	guard(func() {
+		switch name {
+		case "HeaderCheckBad", "HeaderCheckGood":
+			h := fit.Header{Size: 14, ProtocolVersion: 0x10, ProfileVersion: 2115, DataSize: 100, DataType: [4]byte{'.', 'F', 'I', 'T'}}
+			raw := fitmodel.HeaderBytes(fitmodel.DefaultHeader, 100)
+			h.ProtocolVersion, h.ProfileVersion = raw[1], uint16(raw[2])|uint16(raw[3])<<8
+			h.CRC = uint16(raw[12]) | uint16(raw[13])<<8
+			if name == "HeaderCheckBad" {
+				h.CRC ^= 0x5A5A
+			}
+			_ = h.CheckIntegrity()
+		case "CheckIntegrityCorrupt":
+			b := append([]byte{}, sAct3.B...)
+			b[len(b)-5] ^= 0x20
+			_ = fit.CheckIntegrity(bytes.NewReader(b), false)
+			hb := append([]byte{}, sAct3.B...)
+			hb[12] ^= 0x11
+			_ = fit.CheckIntegrity(bytes.NewReader(hb), true)
+		case "DecodeGood":
+			_, _ = fit.Decode(bytes.NewReader(sAct3.B))
+		case "DecodeCorrupt":
+			b := append([]byte{}, sAct3.B...)
+			b[20] ^= 0x01
+			_, _ = fit.Decode(bytes.NewReader(b))
+			_, _ = fit.Decode(bytes.NewReader(sAct3.B[:30]))
+		case "EncodeSmall":
+			var buf bytes.Buffer
+			_ = fit.Encode(&buf, apiFile(0), binary.LittleEndian)
+		}
+	})
+}
+
 func c14FirstUse(w *vx.W) {
 	type call struct {
 		api string
@@ -458,6 +513,16 @@ func c14FirstUse(w *vx.W) {
 			hists = append(hists, []call{a, b})
 		}
 	}
+	// histories that go through package fit first: Header.CheckIntegrity with a wrong / right CRC, CheckIntegrity and
+	// Decode of corrupt and valid files, a small Encode; afterwards the checksum package must behave as if fresh
+	for _, f1 := range c14FitCalls {
+		for _, c := range []call{{"Checksum", 1}, {"Checksum", 513}, {"Write", 0}, {"Write", 2}, {"Write", 513}, {"Sum", 256}} {
+			hists = append(hists, []call{{f1, 0}, c})
+		}
+		for _, f2 := range c14FitCalls {
+			hists = append(hists, []call{{f1, 0}, {f2, 0}, {"Write", 3}, {"Checksum", 700}})
+		}
+	}
 	for i, h := range hists {
 		if !w.Mine(int64(i)) {
 			continue
@@ -479,6 +544,9 @@ func c14FirstUse(w *vx.W) {
 		lines := strings.Fields(string(out))
 		for j, c := range h {
 			want := fmt.Sprintf("%04x", fitmodel.CRC(c14Pattern(c.n)))
+			if isFitCall(c.api) {
+				want = "-"
+			}
 			got := "missing"
 			if j < len(lines) {
 				got = lines[j]
